@@ -3,7 +3,7 @@
    calcDescriptor<X>Length: Gen/Preds.v (re-translated from descriptor.go on every run);
    Spec: Spec/DescSpec.v (body sizes from the standards as plain integers, the TLV split as a relation on bytes). *)
 From Coq Require Import ZArith List Lia.
-Require Import Base.Bits Base.Iter Base.Wr Gen.Consts Gen.Types Gen.Preds Model.Desc Spec.DescSpec Spec.DvbSpec Proofs.DescProofs Proofs.DescRoundTrip2 Proofs.DescRoundTrip3 Proofs.DescRoundTrip4 Proofs.DescRoundTripAll.
+Require Import Base.Bits Base.Iter Base.Wr Gen.Consts Gen.Types Gen.Preds Model.Desc Spec.DescSpec Spec.DvbSpec Spec.DescSpec2 Proofs.DescProofs Proofs.DescRoundTrip2 Proofs.DescRoundTrip3 Proofs.DescRoundTrip4 Proofs.DescRoundTripAll Proofs.DescWrite2.
 Import ListNotations.
 Open Scope Z_scope.
 
@@ -656,3 +656,49 @@ Example C14_teletext_hex_digits :
                    (parse_descriptors (new_iter [240; 7; 86; 5; 102; 114; 97; 8; pb]))) [26; 32; 250]
   = [Ok [Some [20]]; Ok [Some [20]]; Ok [Some [160]]].
 Proof. vm_compute. reflexivity. Qed.
+
+(* ================= (d, continued) reference layouts of the bit-packed tags =================
+   Spec/DescSpec2.v gives the body of each remaining tag as integer arithmetic on the field values (flag * 2^k, field
+   * 2^k, reserved bits 1), written from EN 300 468 6.2 / 6.4 / Annex D and ISO/IEC 13818-1 2.6; the writers of
+   Model/Desc.v emit exactly those bytes.  Teletext covers VBI teletext (same body).  With C14_write_bodies and
+   C14_write_descriptor (tag, size, body) every one of the 23 typed tags is written as its reference encoding. *)
+Theorem C14_write_bodies2 :
+  (forall v, byte_range (DescriptorAC3_ComponentType v) -> byte_range (DescriptorAC3_BSID v) -> byte_range (DescriptorAC3_MainID v) ->
+             byte_range (DescriptorAC3_ASVC v) -> bytes_ok (DescriptorAC3_AdditionalInfo v) ->
+             bytes_of_items (enc_ac3 v) = ref_ac3 v) /\
+  (forall v, byte_range (DescriptorEnhancedAC3_ComponentType v) -> byte_range (DescriptorEnhancedAC3_BSID v) ->
+             byte_range (DescriptorEnhancedAC3_MainID v) -> byte_range (DescriptorEnhancedAC3_ASVC v) ->
+             byte_range (DescriptorEnhancedAC3_SubStream1 v) -> byte_range (DescriptorEnhancedAC3_SubStream2 v) ->
+             byte_range (DescriptorEnhancedAC3_SubStream3 v) -> bytes_ok (DescriptorEnhancedAC3_AdditionalInfo v) ->
+             bytes_of_items (enc_enhanced_ac3 v) = ref_enhanced_ac3 v) /\
+  (forall v, byte_range (DescriptorAVCVideo_ProfileIDC v) -> byte_range (DescriptorAVCVideo_LevelIDC v) ->
+             0 <= DescriptorAVCVideo_CompatibleFlags v < 32 -> bytes_of_items (enc_avc_video v) = ref_avc_video v) /\
+  (forall v, wf_component v -> bytes_ok (DescriptorComponent_ISO639LanguageCode v) -> bytes_ok (DescriptorComponent_Text v) ->
+             bytes_of_items (enc_component v) = ref_component v) /\
+  (forall v, wf_extended_event v -> bytes_ok (DescriptorExtendedEvent_ISO639LanguageCode v) ->
+             Forall (fun it => bytes_ok (DescriptorExtendedEventItem_Description it) /\ bytes_ok (DescriptorExtendedEventItem_Content it))
+                    (DescriptorExtendedEvent_Items v) ->
+             bytes_ok (DescriptorExtendedEvent_Text v) -> bytes_of_items (enc_extended_event v) = ref_extended_event v) /\
+  (forall v its, wf_extension v -> enc_extension v = Ok its -> items_bytes_ok its -> bytes_of_items its = ref_extension v) /\
+  (forall v, 0 <= DescriptorMaximumBitrate_Bitrate v / 50 < 2 ^ 22 -> bytes_of_items (enc_maximum_bitrate v) = ref_maximum_bitrate v) /\
+  (forall v, Forall wf_teletext_item (DescriptorTeletext_Items v) ->
+             Forall (fun it => bytes_ok (DescriptorTeletextItem_Language it)) (DescriptorTeletext_Items v) ->
+             bytes_of_items (enc_teletext v) = ref_teletext v) /\
+  (forall v, Forall wf_vbi_service (DescriptorVBIData_Services v) -> bytes_of_items (enc_vbi_data v) = ref_vbi_data v) /\
+  (forall v, Forall wf_local_time_offset_item (DescriptorLocalTimeOffset_Items v) ->
+             Forall (fun it => bytes_ok (DescriptorLocalTimeOffsetItem_CountryCode it)) (DescriptorLocalTimeOffset_Items v) ->
+             bytes_of_items (enc_local_time_offset v) = ref_local_time_offset v).
+Proof.
+  repeat split.
+  - exact write_ac3. - exact write_enhanced_ac3. - exact write_avc_video. - exact write_component. - exact write_extended_event.
+  - exact write_extension. - exact write_maximum_bitrate. - exact write_teletext. - exact write_vbi_data. - exact write_local_time_offset.
+Qed.
+Print Assumptions C14_write_bodies2.
+
+(* the reference layouts on the examples above (values computed from the Spec definitions alone) *)
+Example C14_ref_layout_examples :
+  ref_ac3 ex_ac3 = [207; 66; 8; 1; 2] /\ ref_teletext ex_teletext = [102; 114; 97; 255; 153; 101; 110; 103; 17; 249] /\
+  ref_vbi_data ex_vbi = [1; 2; 231; 223; 3; 1; 255; 7; 0] /\
+  ref_extended_event ex_extended_event = [31; 102; 114; 97; 7; 2; 7; 8; 1; 9; 0; 0; 1; 65] /\
+  ref_local_time_offset ex_lto = [70; 82; 65; 2; 1; 0; 192; 121; 18; 69; 0; 2; 0].
+Proof. repeat split; vm_compute; reflexivity. Qed.
